@@ -75,8 +75,28 @@ static std::string run_job(const Job &j) {
   return d.hex() + ":" + ordered_digest(*out, mesh ? static_cast<const draco::Mesh *>(out.get()) : nullptr);
 }
 
+// Sense-reversing spin barrier: in hot rounds all threads start every repetition at the same instant, so that the
+// first microseconds of a job (option parsing, set-up) overlap in all threads each time.
+struct SpinBarrier {
+  explicit SpinBarrier(int n) : n_(n) {}
+  void wait() {
+    const int gen = gen_.load(std::memory_order_acquire);
+    if (count_.fetch_add(1, std::memory_order_acq_rel) + 1 == n_) {
+      count_.store(0, std::memory_order_relaxed);
+      gen_.store(gen + 1, std::memory_order_release);
+    } else {
+      int spins = 0;
+      while (gen_.load(std::memory_order_acquire) == gen)
+        if (++spins > 2000) std::this_thread::yield();
+    }
+  }
+  const int n_;
+  std::atomic<int> count_{0}, gen_{0};
+};
+
 static std::string run_round(const RoundSpec &r, bool *nontriv) {
   const size_t n = r.threads.size();
+  SpinBarrier barrier(static_cast<int>(n));
   // expected results: every job alone, before any thread is started
   std::vector<std::vector<std::string>> want(n), got(n);
   for (size_t t = 0; t < n; ++t)
@@ -95,19 +115,22 @@ static std::string run_round(const RoundSpec &r, bool *nontriv) {
         cv.notify_all();
         cv.wait(lk, [&] { return go; });
       }
-      try {
-        for (int rep = 0; rep < std::max(1, r.repeat); ++rep) {
-          for (size_t k = 0; k < r.threads[t].size(); ++k) {
-            std::string res = run_job(r.threads[t][k]);
-            if (rep == 0) {
-              got[t].push_back(res);
-            } else if (res != got[t][k] && got[t][k] == want[t][k]) {
-              got[t][k] = res;  // keep the first deviating repetition
-            }
+      for (int rep = 0; rep < std::max(1, r.repeat); ++rep) {
+        if (r.repeat > 1) barrier.wait();  // (every thread takes part in every repetition, also after an exception)
+        for (size_t k = 0; k < r.threads[t].size(); ++k) {
+          std::string res;
+          try {
+            res = run_job(r.threads[t][k]);
+          } catch (const std::exception &e) {
+            if (errors[t].empty()) errors[t] = std::string("exception in thread: ") + e.what();
+            res = "exception";
+          }
+          if (rep == 0) {
+            got[t].push_back(res);
+          } else if (res != got[t][k] && got[t][k] == want[t][k]) {
+            got[t][k] = res;  // keep the first deviating repetition
           }
         }
-      } catch (const std::exception &e) {
-        errors[t] = std::string("exception in thread: ") + e.what();
       }
     });
   }
